@@ -219,6 +219,13 @@ class _ReadSourceGenerator:
                     # After a dynamic field the padding between members depends on the runtime stream position,
                     # it cannot be baked into one struct format: read such members one by one
                     yield from flush()
+                if current_block and field.offset is not None:
+                    if field.offset < current_offset:
+                        # A set offset before the end of the previous member can't be expressed as padding: seek back
+                        yield from flush()
+                    else:
+                        # The gap up to the field's offset becomes padding in the block's format
+                        current_offset = field.offset
                 if not current_block:
                     # A block starts at its first field's offset, which may lie beyond the end of the previous field
                     yield from align_to_field(field)
